@@ -3,11 +3,11 @@ package main
 // Workspace-index rules for C12 (DESIGN §3.F T1, T2 and §5 C12-CLEAR / C12-REFRESH).
 
 import (
-	"golang.org/x/tools/go/ssa"
 	"fmt"
 	"go/ast"
 	"go/token"
 	"go/types"
+	"golang.org/x/tools/go/ssa"
 	"sort"
 	"strings"
 )
